@@ -687,6 +687,41 @@ func c03Corpus(c *runner.Ctx, idx uint64) {
 				map[string]interface{}{"source": src, "environment": "struct{MyI MyInt; MyS MyStr; A int}", "run": o.String()})
 		}
 	}
+	// accepted calls and slices that must simply work (a failure with a nil in
+	// its message is otherwise counted as a value reason)
+	for _, src := range []string{"FnPIt(nil)", "FnPIt(nil) + 1", "FnInts(nil)", "FnPIt(NilIt)", "It.Plus(1)", "FnInts(Arr3[0:2])", "Arr3[1:]", "Arr3[0:2] == [7, 8]", "len(Arr3[:1])", "ArrS[0:1]"} {
+		c.Begin("must-work: " + src)
+		p, co := SafeCompile(src, expr.Env(envs.Env{}))
+		c.Eval(1)
+		if co.Failed() {
+			c.Violate("well-typed-rejected:corpus:"+src, "rejected: "+co.String(), map[string]interface{}{"source": src})
+			continue
+		}
+		e := envs.New(&envs.Log{})
+		envs.Fill(e, 3, runner.NewRng(11))
+		o := SafeRun(p, *e)
+		c.Eval(1)
+		ct, _, _ := checkerType(src, envs.Env{})
+		switch {
+		case o.Failed():
+			c.Violate("corpus:must-work-failed:"+src, "an accepted, fully typed expression failed: "+o.String(), map[string]interface{}{"source": src, "run": o.String()})
+		case ct != nil && ct.Kind() != reflect.Interface && o.Val != nil && reflect.TypeOf(o.Val) != ct:
+			c.Violate("corpus:"+c03ResultSig(ct, reflect.TypeOf(o.Val))+":"+src, fmt.Sprintf("the checker reported %v, the run returned %T", ct, o.Val), map[string]interface{}{"source": src})
+		}
+	}
+	// a declared member that is not a function is not callable, whatever the options
+	for _, src := range []string{"A()", "S(1)", "Ints(0)", "It()"} {
+		c.Begin("not-a-function: " + src)
+		_, co := SafeCompile(src, expr.Env(envs.Env{}), expr.AllowUndefinedVariables())
+		c.Eval(1)
+		if co.Panic != nil {
+			c.Violate("mutant-compile-panic", fmt.Sprint(co.Panic), map[string]interface{}{"source": src})
+		} else if co.Err == nil {
+			c.Violate("ill-typed-accepted:call-of-non-function-with-AllowUndefinedVariables", "Compile accepted a call of a declared member that is not a function: "+src, map[string]interface{}{"mutant": src})
+		} else {
+			c.Count("mutants_rejected", 1)
+		}
+	}
 	// a conditional with a nil arm under a result directive: whatever is
 	// accepted returns exactly the directive's type, for either branch
 	for _, d := range []struct {
@@ -762,7 +797,7 @@ func c03Corpus(c *runner.Ctx, idx uint64) {
 		"Half(A % 2)", "Half(7 % 2)", "FnF(A)", "FnF(len(Ints))", "FnF32(I64)", "FnI(X)", "FnI64(X * 2)", "FnU8(S)",
 		// membership in a map needs a key-typed left operand; maps cannot be sliced; nil is not an int, string or bool argument; computed map keys are strings
 		"A in MI", "1 in MI", "A not in MI", "X in MI", "P in MI", "MI[0:1]", "MI[:]", "{\"a\": 1}[:]", "MA[1:]", "FnI(nil)", "A + FnI(nil)", "FnS(nil)", "FnB(nil)", "FnF(nil)", "FnItem(nil)", "FnII(1, nil)",
-		"{(1): 2}", "{(A): 2}", "{(P): 2}", "{(X): 1, \"b\": 2}"} {
+		"{(1): 2}", "{(A): 2}", "{(P): 2}", "{(X): 1, \"b\": 2}", "all(Ints, {nil})", "filter(Ints, {nil})", "count(Items, {nil})"} {
 		c.Begin(src)
 		_, co := SafeCompile(src, expr.Env(envs.Env{}))
 		c.Eval(1)
